@@ -150,3 +150,43 @@ register(Contract(
         assume={'R-ind': 'rind(%s, %s, seen)' % (VG, START)})},
     properties=['C16'], gen='view',
 ))
+
+# ---- SCFG.__iter__ (C16): breadth-first over this level, descending into every region when it is reached.  The nested
+# iteration (`yield from block.subregion`, this same generator) is used through its contract: it yields hier_names(sub).
+SG = 'self.graph'
+IT_START = 'self.find_head()'
+IT_REACH = '(b == %s or reach1(%s, %s, b))' % (IT_START, SG, IT_START)
+REGIONS = '[k for k in %s if type(%s[k]) is RegionBlock]' % (SG, SG)
+register(Contract(
+    qual=SC + ':SCFG.__iter__', params={'self': 'SCFG'}, returns='set[name]', yield_key=0,
+    # a directly yielded item is a block of this level under its own name (at run time the nested items come through the
+    # same stream: they carry a name of one of this level's regions' hierarchies)
+    yield_check='(it[1] == self.graph[it[0]]) if it[0] in self.graph else'
+                ' any(it[0] in hier_names(self.graph[r].subregion) for r in self.graph if type(self.graph[r]) is RegionBlock)',
+    locals={'to_visit': 'list[name]', 'seen': 'list[name]'},
+    requires={
+        # names are unique across the hierarchy (C04): no key of this level is a name inside a region of this level, and
+        # the regions of this level hold disjoint names
+        'unique-level': 'all(k not in hier_names(%s[r].subregion) for k in %s for r in %s if type(%s[r]) is RegionBlock)' % (SG, SG, SG, SG),
+        'unique-regions': 'all(implies(n in hier_names(%s[r1].subregion) and n in hier_names(%s[r2].subregion), r1 == r2)'
+                          ' for r1 in %s if type(%s[r1]) is RegionBlock for r2 in %s if type(%s[r2]) is RegionBlock'
+                          ' for n in hier_names(%s[r1].subregion))' % (SG, SG, SG, SG, SG, SG, SG),
+    },
+    raises={'AssertionError': 'card(%s) != 1' % HEADS},
+    yields='{b for b in %s if %s} | {n for b in %s if %s and type(%s[b]) is RegionBlock for n in hier_names(%s[b].subregion)}'
+           % (SG, IT_REACH, SG, IT_REACH, SG, SG),
+    ensures={'exactly': 'result == {b for b in %s if %s} | {n for b in %s if %s and type(%s[b]) is RegionBlock'
+                        ' for n in hier_names(%s[b].subregion)}' % (SG, IT_REACH, SG, IT_REACH, SG, SG)},
+    loops={'while to_visit': LoopSpec(
+        inv={
+            'yielded': '_yielded == {b for b in seen if b in %s} | {n for b in seen if b in %s and type(%s[b]) is RegionBlock'
+                       ' for n in hier_names(%s[b].subregion)}' % (SG, SG, SG, SG),
+            'seen-reach': 'all(x == %s or reach1(%s, %s, x) for x in seen)' % (IT_START, SG, IT_START),
+            'tv-reach': 'all(x == %s or reach1(%s, %s, x) for x in to_visit)' % (IT_START, SG, IT_START),
+            'start': '%s in seen or %s in to_visit' % (IT_START, IT_START),
+            'closed': 'all(t in seen or t in to_visit for x in seen if x in %s for t in %s[x].jump_targets)' % (SG, SG),
+            'seen-distinct': 'distinct(seen)',
+        },
+        assume={'R-ind': 'rind(%s, %s, set(seen))' % (SG, IT_START)})},
+    properties=['C16'], gen='iter_scfg',
+))
